@@ -21,6 +21,10 @@ class C14(Prop):
                 for tg in tags:
                     for hd in head_variants(6, tg)[: (5 if r.random() < 0.3 else 1)]:
                         ops.append(mk('dect %s b%s' % (t, (hd + body).hex()), k='tag%s' % ('=' if tg == tag else '!'), body=body.hex(), t=t, tagnum=tg))
+                # tag numbers that alias the registered tag under a narrowing to 8 / 16 / 32 bits, a sign flip or an off-by-one width
+                for tg in (tag + 2**8, tag + 2**16, tag + 2**32, tag + 2**33, tag + 2**63, tag + (r.randrange(1, 2**31) << 32), 2**64 - tag, (tag << 8) | tag, tag << 32):
+                    for hd in head_variants(6, tg):
+                        ops.append(mk('dect %s b%s' % (t, (hd + body).hex()), k='tag-alias', body=body.hex(), t=t, tagnum=tg))
                 ops.append(mk('dect %s b%s' % (t, body.hex()), k='notag', body=body.hex(), t=t, tagnum=None))
                 ops.append(mk('dect %s b%s' % (t, (refcbor.head(6, tag) * 2 + body).hex()), k='double', body=body.hex(), t=t, tagnum=-1))
                 ops.append(mk('dec %s b%s' % (t, (refcbor.head(6, tag) + body).hex()), k='untagged-on-tagged', t=t, must_reject=True))
